@@ -1,10 +1,14 @@
 """C04 — a key is used only for callers entitled to it (server authentication / authorisation / real-ip)."""
 import os
+import re
 import runner
 
 TIE = "corr:authz"
 TIE_THEOREM = ("Relic.Props.C04.sign_only_if_entitled / not_entitled_refused / malformed_config_is_error / list_exact / "
-               "untrusted_headers_ignored / derived_addr_spec (model Relic.Model.Authz + Relic.Model.RealIP vs server.Handler())")
+               "untrusted_headers_ignored / derived_addr_spec (model Relic.Model.Authz + Relic.Model.RealIP vs server.Handler()); "
+               "policy mode: policy_sign_only_if_entitled / policy_fail_closed / policy_no_credentials_401 / policy_deny_never_grants / "
+               "policy_deny_status / policy_list_exact / policy_input_faithful / policy_mode_exclusive "
+               "(model Relic.Model.AuthzPolicy vs server.Handler() with server.policyurl pointing at a scripted policy server)")
 RULE = ("seeded random: configurations (<=4 clients by SPKI fingerprint or by CA with real generated ECDSA chains incl. intermediate "
         "supplied/withheld, expired, wrong EKU, self-signed; <=5 keys: plain, alias, dangling alias, alias of alias, self alias, alias "
         "entries with own token/roles, hidden, without token, without roles, undefined token; 0-2 tokens; trusted-proxy lists of "
@@ -14,15 +18,33 @@ RULE = ("seeded random: configurations (<=4 clients by SPKI fingerprint or by CA
         "Ssl-Client-Cert absent / chain / undecodable / no PEM; TLS chain of 9 kinds / none / empty) against the real "
         "server.Handler() over recording fake tokens; requests with >=2 CA clients fired 6 times (map iteration order); 0-2 header variants "
         "per request. Non-trivial = distinct op that passed server construction and reached authentication with a certificate "
-        "(i.e. model outcome is not start error, 401 certificate-required or a public endpoint).")
-ASSUMPTIONS = ["certificate mode only (server.policy_url empty); the OPA/bearer-token mode is not modelled",
+        "(i.e. model outcome is not start error, 401 certificate-required or a public endpoint). "
+        "POLICY MODE (op kind preq, own seeded stream): the same configurations with server.policyurl = a real HTTP server on the loopback "
+        "interface scripted per request (URL variants: no path, /, /v1/data/..., /V1/DATA, /v1/datax, query containing /v1/data, a port "
+        "nobody listens on, and no URL = certificate mode with bearer tokens present) x the same requests plus Authorization header "
+        "variants (absent, Bearer/bearer/BEARER/mixed case, 'Bearer ' alone, 'Bearer', two spaces, Basic, 'Bearertok', tab, leading space, "
+        "UTF-8 token, non-ASCII in the prefix) x TLS chain present/absent x trusted-proxy headers x policy behaviours: 200/201/202/204/226/299 "
+        "and 300..599 (with bodies that say allow), connection closed without answer, connection refused, slow past the request deadline "
+        "(thorough only), bodies: standard, upper-case member names, unknown members, duplicate allow, null lists, no result / null result / "
+        "{} / null / allow:null (zero decision), allow as string / number, roles as string, result as array, trailing garbage, truncated, "
+        "empty, HTML, array, true (unparsable); decisions: allow / deny x 0, 1, 2 error strings with and without a should401 code and near "
+        "misses (case, trailing space) x roles and allowed_keys empty / filled / aimed at the requested key's resolved entry / near-miss "
+        "names (k1 vs k10, r vs r0, R0, alias name instead of target). Observed besides the above: the decision request the policy server "
+        "received (URL, wrapper, path, query, token, fingerprint, PEM chain) and the errors of the problem document. Non-trivial in policy "
+        "mode = distinct op for which a decision request is sent.")
+ASSUMPTIONS = ["policy mode: the policy server is a parameter (a function from the decision request to a transport failure or a status and "
+               "the result of json.Unmarshal on the body); json.Unmarshal, json.Marshal of the input, PEM encoding and the SHA-256 "
+               "fingerprint are abstract (certificates are names); the harness supplies what Unmarshal makes of each body by construction; "
+               "what a wrong or malicious policy answer can do is outside the property (trust boundary: policy_decision_trusted)",
+               "policy_list_exact: every entry that allowed_keys names has a token (counter-example policy_list_needs_tokens)",
+               "header values are byte strings; a bearer token that is not valid UTF-8 is not generated (json.Marshal would replace the bytes)",
                "x509 path validation (ClientConfig.Match -> x509.Verify), PEM/URL decoding of Ssl-Client-Cert, net.ParseIP/IPNet.Contains "
                "are abstract relations supplied as data; the harness supplies them by construction of its certificates and address pool",
                "Go maps are association lists with distinct keys; iteration order is arbitrary (all choices are covered)",
                "list_exact: the server started and no token section is named \"\" (counter-example list_exact_needs_named_tokens)",
                "strings.TrimSpace: ASCII white space, U+0085 and U+00A0 only",
                "what a token does with a key name after GetKey is called is outside the model (fake tokens return the entry itself)"]
-TRUSTED = ["models Relic.Model.Authz / Relic.Model.RealIP are hand-written; tied to server/, internal/authmodel, internal/realip, config by "
+TRUSTED = ["models Relic.Model.Authz / Relic.Model.AuthzPolicy / Relic.Model.RealIP are hand-written; tied to server/, internal/authmodel, internal/realip, config by "
            "differential execution on every run",
            "tools/extractroutes (go/ast) regenerates Relic/Generated/Routes.lean from server/server.go on every run",
            "chi routing, net/http, crypto/x509, zerolog"]
@@ -85,11 +107,15 @@ def agree(op, il, mres, tag):
     must be one the model allows"""
     if il == mres:
         return True
+    if "post=?" in il:  # connection refused / slow policy server: what was sent is not observable
+        mres = re.sub(r"post=\S+", "post=?", mres)
     ms = set(_alts(mres))
     return all(a in ms for a in _alts(il))
 
 
 def nontrivial(op, mres, tag):
+    if op.split()[1] == "preq" and tag.startswith("mode=policy"):
+        return "post=w" in mres or mres.startswith("panic")
     if tag.startswith("start") or not mres.startswith("ok"):
         return mres.startswith("panic")
     f = op.split()
@@ -100,6 +126,14 @@ def nontrivial(op, mres, tag):
 
 def branch(op, mres, tag):
     f = op.split()
+    if f[1] == "preq" and not tag.startswith("mode=cert"):
+        first = _alts(mres)[0].split(" ")
+        kv = _opkv(f)
+        how = kv["opa"] if not kv["opa"].startswith("http:2") else ("2xx:" + ("bad" if kv["dec"] == "bad" else "allow" if kv["dec"][0] == "1" else "deny"))
+        key = "policy:" + f[3] + ":" + " ".join(first[:3] if first[0] == "ok" else first[:2]) + ":" + how
+        if "ev=getkey" in mres:
+            key += ":token"
+        return key
     a = _alts(mres)
     first = a[0].split(" ")
     key = f[3] + ":" + " ".join(first[:3] if first[0] == "ok" else first[:2])
@@ -110,9 +144,145 @@ def branch(op, mres, tag):
     return key
 
 
+SHOULD401 = ("e0", "e1", "e2", "e3")
+
+
+def _opkv(f):
+    return dict(x.split("=", 1) for x in f[7:] if "=" in x)
+
+
+def _bearer(auth_hex):
+    """bearer token of an Authorization header (hex) as the specification has it, hex again"""
+    a = b"" if auth_hex == "-" else bytes.fromhex(auth_hex)
+    if len(a) < 7 or a[:7].lower() != b"bearer ":
+        return "-"
+    return a[7:].hex() or "-"
+
+
+def _predicate_policy(op, il, mres, tag):
+    """policy (OPA / bearer token) mode: the property evaluated on what the real server did"""
+    P = "Relic.Props.C04."
+    f = op.split()
+    ep = f[3]
+    kv = _opkv(f)
+    t = _tag(tag)
+    if tag.startswith("start"):
+        return None
+    keyed = ep in ("sign", "getkey")
+    public = ep in ("health", "directory")
+    dec = kv["dec"]
+    fetch_failed = not kv["opa"].startswith("http:2") or dec == "bad"
+    dfield = dec.split(",") if dec != "bad" else None
+    denied = (not fetch_failed) and dfield[0] == "0"
+    suffix = kv["url"].split(":", 1)[1]
+    suffix_b = b"" if suffix == "-" else bytes.fromhex(suffix)
+    for alt in _alts(il):
+        if alt.startswith("crash") or alt.startswith("not-run"):
+            return (P + "policy_no_panic", mres, "harness process died")
+        d = _parse(alt)
+        if d["kind"] == "panic":
+            return (P + "policy_no_panic", mres, "handler panicked")
+        if d["kind"] != "ok":
+            continue
+        for flag in ("audit-ip-differs", "audit-missing", "audit-unparseable"):
+            if flag in alt:
+                return (P + "policy_untrusted_headers_ignored", "audit client.ip = derived address", flag)
+        touched = d.get("ev", "-") != "-"
+        ok2xx = 200 <= d["status"] < 300
+        listed = d.get("keys", "-") != "-"
+        post = d.get("post", "-")
+        if (touched or (keyed and ok2xx)) and not (keyed and t.get("pent") == "1"):
+            if t.get("cred") == "0":
+                thm, why = "policy_no_credentials_401", "request without bearer token or certificate"
+            elif fetch_failed:
+                thm, why = "policy_fail_closed", "the policy decision could not be fetched (%s, dec=%s)" % (kv["opa"], "bad" if dec == "bad" else "ok")
+            elif denied:
+                thm, why = "policy_deny_never_grants", "the decision says allow=false"
+            else:
+                thm, why = "policy_sign_only_if_entitled", "the decision neither names the resolved key nor grants one of its roles"
+            return (P + thm, "401/403/5xx and empty token log", "key used or disclosed although " + why)
+        if public:
+            if post not in ("-", "?"):
+                return (P + "policy_asked_only_with_credentials", "post=-", "policy server asked about a public endpoint")
+        elif t.get("pcerr") == "1":
+            # a trusted proxy's Ssl-Client-Cert does not decode: error before anything else
+            if d["status"] != 500 or touched or listed or post not in ("-", "?"):
+                return (P + "policy_fail_closed", "500, policy not asked", "undecodable Ssl-Client-Cert from a trusted proxy not answered 500")
+        elif t.get("cred") == "0":
+            ok = d["status"] == 401 and d["problem"] == "token-required" and post in ("-", "?")
+            if not ok or touched or listed:
+                return (P + "policy_no_credentials_401", "401 token-required, policy not asked",
+                        "request without bearer token or certificate not refused with 401 (or the policy server was asked)")
+        elif fetch_failed:
+            if d["status"] not in (500, 504) or touched or listed or d.get("user", "-") != "-":
+                return (P + "policy_fail_closed", "500/504, no token event, nothing listed",
+                        "failed policy fetch (%s) did not give an error response" % kv["opa"])
+        elif denied:
+            errs = [] if dfield[2] == "-" else dfield[2].split("+")
+            want = 401 if any(e in SHOULD401 for e in errs) else 403
+            if d["status"] not in (401, 403) or touched or listed or d["problem"] != "token-authorization-failed":
+                return (P + "policy_deny_never_grants", "401/403 token-authorization-failed",
+                        "decision with allow=false (errors=%s roles=%s keys=%s) not refused" % (dfield[2], dfield[3], dfield[4]))
+            if d["status"] != want or str(want) != t.get("deny") or d.get("perr", "-") != dfield[2]:
+                return (P + "policy_deny_status", "%d with errors %s" % (want, dfield[2]),
+                        "status of a denial: 401 iff an error is in should401, else 403; errors relayed")
+        else:
+            if ep == "list" and d["status"] == 200 and t.get("plist", "none") != "none":
+                want = set() if t["plist"] == "-" else set(t["plist"].split("+"))
+                got = d.get("keys", "-")
+                gl = [] if got == "-" else got.split(",")
+                if (t.get("lhyp") == "1" and (set(gl) != want or gl != sorted(gl))) or not want <= set(gl):
+                    return (P + "policy_list_exact", "keys=" + t["plist"], "listing differs from the sorted non-hidden signable names")
+        # the decision request
+        if post not in ("-", "?"):
+            if "|" in post:
+                return (P + "policy_input_faithful", "one decision request", "several decision requests for one request")
+            pf = post.split(":")
+            xin = t.get("xin", "").split(":")
+            want_w = "w1" if b"/v1/data" in suffix_b else "w0"
+            names = f[8].split(":")[1]
+            names = [] if names == "-" else names.split("+")
+            bad = None
+            if len(pf) != 7 or len(xin) != 5:
+                bad = "unexpected shape of the decision request: " + post
+            elif pf[0] != want_w or pf[1] != suffix:
+                bad = "decision request sent to the wrong URL or in the wrong wrapper"
+            elif pf[4] != _bearer(kv["auth"]):
+                bad = "token in the policy input is not the bearer token of this request's Authorization header"
+            elif pf[2:4] != xin[0:2]:
+                bad = "path/query in the policy input are not this request's"
+            elif pf[5:7] != xin[3:5]:
+                bad = "certificate in the policy input is not the one real-ip attributes to the caller"
+            elif t.get("ut") == "1" and (pf[5] != (names[0] if names else "-") or pf[6] != ("+".join(reversed(names)) or "-")):
+                bad = "certificate in the policy input is not the TLS peer's although the peer is not a trusted proxy"
+            if bad:
+                return (P + "policy_input_faithful", "w:url:" + ":".join(xin), bad)
+        if ep != "health" and "xip" in t and d.get("ip") != t["xip"]:
+            thm = "policy_untrusted_headers_ignored" if t.get("ut") == "1" else "derived_addr_spec"
+            return (P + thm, "ip=" + t["xip"], "recorded address is not the specified one")
+        if t.get("ut") == "1" and ep != "health" and d.get("ip") != t.get("utip"):
+            return (P + "policy_untrusted_headers_ignored", "ip=" + t.get("utip", "?"), "address derived for an untrusted peer is not the peer's")
+    if t.get("ut") == "1":
+        key = "P " + " ".join(f[2:9] + [x for x in f[9:] if not x.startswith("xff=") and not x.startswith("ssl=")])
+        prev = _variants.get(key)
+        cur = set(_alts(il))
+        if prev is None:
+            _variants[key] = cur
+        elif prev != cur:
+            return (P + "policy_untrusted_headers_ignored", next(iter(prev)),
+                    "response to an untrusted peer depends on X-Forwarded-For / Ssl-Client-Cert")
+    return None
+
+
 def predicate(op, il, mres, tag):
     """the property itself, on the implementation's behaviour"""
     f = op.split()
+    if f[1] == "preq":
+        if not tag.startswith("mode=cert"):
+            return _predicate_policy(op, il, mres, tag)
+        # no policy URL: certificate mode; bearer tokens and the policy server play no role
+        if any("post=-" not in a for a in _alts(il) if a.startswith("ok")):
+            return ("Relic.Props.C04.cert_mode_ignores_bearer", "post=-", "policy server contacted although no policy URL is configured")
     ep = f[3]
     t = _tag(tag)
     ent = _pairs(t.get("ent", "-"))
@@ -159,7 +329,7 @@ def predicate(op, il, mres, tag):
                         "address derived for an untrusted peer is not the peer's")
     if t.get("ut") == "1" and len(_alts(mres)) == 1:
         # header variants of the same request from an untrusted peer: identical behaviour of the implementation
-        key = " ".join(f[2:8] + [x for x in f[8:] if x.startswith("ra=") or x.startswith("tls=")])
+        key = " ".join(f[1:8] + [x for x in f[8:] if x.startswith("ra=") or x.startswith("tls=")])
         prev = _variants.get(key)
         cur = set(_alts(il))
         if prev is None:
